@@ -37,6 +37,7 @@ import IvpModel.Proofs.DupDopri5
 import IvpModel.Proofs.DupRk23
 import IvpModel.Proofs.DupRk4
 import IvpModel.Proofs.DupDop853
+import IvpModel.Proofs.ReflectRadau
 import Mathlib.Analysis.Real.Sqrt
 
 noncomputable section
@@ -336,6 +337,21 @@ theorem sqrtDiv_real (p : ℝ → ℝ → ℝ) : @Ctl.SqrtDiv ℝ _ _ ⟨Real.sq
   intro a b hb
   show Real.sqrt (a / (b * b)) = Real.sqrt a / b
   rw [Real.sqrt_div' a (mul_self_nonneg b), Real.sqrt_mul_self hb.le]
+
+/-- **Radau's control logic under time reflection**, from the start of `solve` (given or default first step, max_step limit, landing
+    test) through every pass (factorisation failures, the Newton loop with its three exits, error test, Gustafsson controller,
+    step-size limits, landing, reuse of the Jacobian): for every list of answers of the numeric kernel (`PassOracle`: singular flags,
+    Newton increments, error estimates) and of the callback, the run over the mirrored span ends with the same status and
+    counters at the mirrored point with the mirrored step.  (`RadauCtl` is tied to radau.rs by the X-radau trace co-simulation.) -/
+theorem c13_reflect_radau_control (L : RadauCtl.Lits K) (hz : L.zero = 0) (S : RadauCtl.Setup K) (hne : S.xend ≠ S.x0)
+    (hM : ∀ mx, S.maxStep = some mx → 0 ≤ mx) (os : List (RadauCtl.PassOracle K)) :
+    (match RadauCtl.start L (RadauCtl.rSetup S) with
+     | .inr q => some q
+     | .inl t => RadauCtl.run L (RadauCtl.params L (RadauCtl.rSetup S)) os t)
+    = (match RadauCtl.start L S with
+       | .inr r => some r
+       | .inl s => RadauCtl.run L (RadauCtl.params L S) os s).map RadauCtl.rRes :=
+  RadauCtl.solve_mir L hz S hne hM os
 
 /-- BDF's norm (translated from bdf.rs) is invariant under a common scaling of values and scales, whatever their size -/
 theorem c13_scale_bdf_norm {n : Nat} (c : K) (hc : c ≠ 0) (values scale : Vector K n) (hnz : ∀ i : Fin n, scale[i] ≠ 0) :
